@@ -167,7 +167,9 @@ pub const C37: Check = Check {
     id: "C37",
     level: "exploration",
     rule: "worlds where 6-20 sibling CAs share one or two rsync modules different from their parent's, 2-16 validation threads, a slow \
-           fake rsync (5-40 ms) and an injected delay at the hook between releasing the in-progress marker and recording completion. \
+           fake rsync (5-40 ms) and an injected delay at the hook between releasing the in-progress marker and recording completion; every \
+           third case serves the shared repositories via RRDP instead (slow notification answers, delay at the hook before the update \
+           result is recorded; oracle: at most one notification request per repository and run, from the fake HTTPS log). \
            Only successful runs on fresh caches are judged. Monitors: the fake rsync's invocation log (start/end on CLOCK_MONOTONIC, \
            module, pid) and the collector's read events (hook, same clock). Oracle: per run and module at most one invocation; every \
            read of a file of a module happens after the end of that module's (first) fetch; payload equals the oracle's. distinct = \
@@ -187,6 +189,7 @@ fn run_c37(ctx: &mut Ctx, rep: &mut Report) {
     let mut rng = ctx.rng("c37");
     let mut b = match Builder::new() { Ok(b) => b, Err(e) => { rep.inconclusive(e); return } };
     let n = ctx.tier.pick(30usize, 400);
+    let fake = crate::net::https::FakeHttps::start().ok();
     for i in 0..n {
         if !ctx.time_left() { rep.note("time budget reached"); break }
         let tals = 3 + rng.usize(6);
@@ -222,6 +225,7 @@ fn run_c37(ctx: &mut Ctx, rep: &mut Report) {
         let threads = 2 + rng.usize(15);
         let window = [0u64, 2, 10, 25][rng.usize(4)];
         let rsync_delay = 5 + rng.below(36);
+        #[allow(unused_mut)]
         let mut env = Env::new(&ctx.scratch.join("env"));
         env.config.validation_threads = threads;
         std::fs::write(env.ctrl.join("delay_ms"), rsync_delay.to_string()).unwrap();
@@ -232,7 +236,25 @@ fn run_c37(ctx: &mut Ctx, rep: &mut Report) {
             let ms = if m >= 100 { rng.below(30) } else { rsync_delay + (m as u64 - 1) * (3 + rng.below(12)) };
             std::fs::write(d.join("repo"), ms.to_string()).unwrap();
         }
-        env.serve(&b.publish(&w));
+        // Every third case publishes the shared repositories via RRDP instead (same oracle on the notification requests).
+        let via_rrdp = i % 3 == 2;
+        if via_rrdp { for c in w.cas.iter_mut() { if c.parent.is_some() { c.rrdp = true; } } }
+        let published = b.publish(&w);
+        env.serve(&published);
+        let mut servers = crate::world::rrdpserve::RrdpServers::default();
+        if via_rrdp {
+            let Some(fake) = fake.as_ref() else { rep.inconclusive("fake https not available"); continue };
+            fake.clear();
+            fake.configure(&mut env.config);
+            env.config.rrdp_fallback = routinator::config::FallbackPolicy::Never;
+            servers.publish(&w, &published, fake, &BTreeMap::new());
+            // slow notification answers so that several CAs are waiting for the same repository
+            let mut s = fake.script.lock().unwrap();
+            for (k, r) in s.replies.iter_mut() { if k.ends_with("notification.xml") { r.delay_ms = rsync_delay; } }
+            drop(s);
+            fake.take_log();
+        }
+        hooks.set_action("rrdp.before_record_update", if window == 0 { None } else { Some(HookAction::Sleep(Duration::from_millis(window))) });
         hooks.set_action("rsync.between_running_and_updated", if window == 0 { None } else { Some(HookAction::Sleep(Duration::from_millis(window))) });
         hooks.take_events();
         ctx.begin_case(&json!({"case": i, "siblings": siblings, "threads": threads}));
@@ -247,6 +269,18 @@ fn run_c37(ctx: &mut Ctx, rep: &mut Report) {
         for l in &log {
             let m = l["module"].as_str().unwrap_or("").to_string();
             per_module.entry(m).or_default().push((l["start"].as_u64().unwrap_or(0) as u128, l["end"].as_u64().unwrap_or(0) as u128));
+        }
+        if via_rrdp {
+            let mut per_repo: BTreeMap<String, usize> = BTreeMap::new();
+            for l in fake.as_ref().map(|f| f.take_log()).unwrap_or_default() {
+                if l.method == "GET" && l.path.ends_with("notification.xml") { *per_repo.entry(l.host.clone()).or_default() += 1; }
+            }
+            rep.count("rrdp_notification_requests_seen", per_repo.values().sum::<usize>() as u64);
+            if per_repo.is_empty() { rep.inconclusive("RRDP case without any notification request"); }
+            for (h, n) in &per_repo {
+                if *n > 1 { rep.violation("C37/rrdp-repository-fetched-twice", format!("the notification of RRDP repository {h} was requested {n} times in one run ({threads} threads, {siblings} sibling CAs, window delay {window} ms)"), replay.clone()); }
+            }
+            rep.max("max_rrdp_window_passages_per_run", events.iter().filter(|e| e.name == "rrdp.before_record_update").count() as u64);
         }
         rep.count("rsync_invocations_seen", log.len() as u64);
         rep.count("read_events_seen", events.iter().filter(|e| e.name == "rsync.load_file").count() as u64);
@@ -276,5 +310,6 @@ fn run_c37(ctx: &mut Ctx, rep: &mut Report) {
         if rep.samples.len() < 2 { rep.sample(json!({"threads": threads, "siblings": siblings, "modules": modules, "fetches": per_module.iter().map(|(k, v)| (k.clone(), v.len())).collect::<BTreeMap<_, _>>()})); }
     }
     hooks.set_action("rsync.between_running_and_updated", None);
+    hooks.set_action("rrdp.before_record_update", None);
     Hooks::uninstall();
 }
